@@ -316,7 +316,7 @@ func init() {
 						}
 						orig := w[o]
 						seen := map[byte]bool{orig: true}
-						for _, v := range []byte{orig + 1, 'x', '5', 0, 0xff, ' ', '+', 1, 2, 4}[:c.Budget(6, 10)] {
+						for _, v := range []byte{orig + 1, 'x', '*', '5', 0, 0xff, ' ', '+', 1, 2, 4}[:c.Budget(7, 11)] {
 							if !seen[v] {
 								seen[v] = true
 								try(map[int]edit{o: {'s', []byte{v}}}, "substitute-structural", true)
@@ -334,6 +334,15 @@ func init() {
 							try(map[int]edit{o: {'i', []byte{v}}}, "insert-structural", true)
 						}
 						try(map[int]edit{o: {'d', nil}}, "delete-structural", true)
+					}
+				}
+				// long insertions: exactly 256 / 512 bytes (a length kept in one byte, or compared modulo 256, does not
+				// notice them) into the title and in front of the offset digits, and 255 / 257 next to them
+				for _, nIns := range []int{256, 512, 255, 257} {
+					for _, o := range []int{lo + 2, lo + 3} {
+						if o < hi {
+							try(map[int]edit{o: {'i', bytes.Repeat([]byte{'A'}, nIns)}}, "insert-256", true)
+						}
 					}
 				}
 				// deletions / insertions
